@@ -244,6 +244,18 @@ def add_can_impls(rng, desc, p=0.75, buses=None, with_period=False):
         if rng.random() < 0.1:
             sigs.append({"name": "nosuchfield", "fields": [("endianess", "big")]})
         desc["impls"].append({"protocol": "can", "type": s["name"], "name": s["name"], "fields": fields, "signals": sigs})
+        if rng.random() < 0.35:
+            # the same struct bound a second time, under another name, with its own (different) signal blocks
+            fid2 = rng.randrange(0, 2048)
+            while fid2 in used_ids:
+                fid2 = rng.randrange(0, 2048)
+            used_ids.add(fid2)
+            sigs2 = []
+            for nm in rng.sample(names, min(len(names), rng.randint(0, 3))):
+                sigs2.append({"name": nm, "fields": [("endianess", rng.choice(["big", "little"]))] if rng.random() < 0.6
+                              else [("mux_count", rng.randint(1, 8)), ("mux_signal", rng.choice(names))]})
+            f2 = [("id", fid2)] + ([("bus", rng.choice(buses))] if buses and rng.random() < 0.7 else [])
+            desc["impls"].append({"protocol": "can", "type": s["name"], "name": s["name"] + "B", "fields": f2, "signals": sigs2})
     return desc
 
 
